@@ -143,10 +143,12 @@ TABLE: list[tuple[str, str, bool, str, list[F]]] = [
         "Expr",
         False,
         "    def __post_init__(self) -> None:\n"
-        "        HOOK_SINK.append(LeafA(a='h:' + self.name))\n"
+        "        helper = LeafA(a='h:' + self.name)\n"
+        "        HOOK_SINK.append(helper)\n"
+        "        object.__setattr__(self, 'sig', helper.content_id[:6])  # a derived property\n"
         "        ASTNode.__post_init__(self)\n"
         "        HOOK_SINK.append(LeafB(a='h:' + self.name))\n",
-        [F("name", "str", "prop", "str")],
+        [F("name", "str", "prop", "str"), F("sig", "str", "prop", "str", 'field(init=False, default="")', init=False)],
     ),
     (
         "Boom",
